@@ -19,7 +19,7 @@ THEOREMS = ["Ymq.C10." + t for t in (
     "basic_mul_spec karatsuba_spec karatsuba_domain mul_karatsuba_spec mul_karatsuba_zmod "
     "middlemul_spec middlemul_pub_spec inv_mod_xn_spec div_mod_xn_spec div_mod_xn_zmod "
     "product_tree_spec from_roots_spec multi_eval_tree_spec multi_eval_spec multi_eval_zmod roots_eval_direct_spec "
-    "mul_spec fft_spec mulfft_spec mulfft_exact kronecker_cyclic_fft roots_eval_spec roots_eval_zmod crt_q_estimate fint_mul_karatsuba crt_spec ntt_roots_spec ntt_inplace_spec ntt_pipeline_spec crt_call_bound").split()]
+    "mul_spec fft_spec mulfft_spec mulfft_exact kronecker_cyclic_fft roots_eval_spec roots_eval_zmod crt_q_estimate fint_mul_karatsuba crt_spec ntt_roots_spec ntt_inplace_spec ntt_pipeline_spec crt_call_bound from_mint_spec pprods_modn_spec convolve_modn_ntt_spec").split()]
 HYPOTHESES = []
 PROFILES = ["release", "chk"]
 TIMEOUT = 60.0
@@ -71,10 +71,11 @@ UNMODELLED = [
     "ZmodN::{mul, add, sub, redc, redc_large} are exact modular arithmetic on residues on the domain proved in C07 (redc_large_spec, "
     "add_spec, redc_spec); MInt == is equality of residues (MInts are reduced: C07); mg_mul/mg_redc are the word-exact C07 models; "
     "arith::inv_mod64 (C08) is the mathematical inverse",
-    "convolve_modn_ntt end to end: the word-level model (Ymq/Model/Ntt.lean) is K/O-compared up to size 1024 (beyond: specification "
-    "model), and proved in pieces (ntt_roots_spec, ntt_inplace_spec, ntt_pipeline_spec, crt_spec, crt_call_bound) but NOT composed: "
-    "from_mint, the scatter into bit-reversed positions, pprods_modn[q] = -qP mod n and the final zn.redc have no theorem; the "
-    "debug_assert sanity check of the roots at the end of MultiZmodP::new is not modelled; Poly::mul_fft has no mechanism model",
+    "convolve_modn_ntt: the word-level model (Ymq/Model/Ntt.lean) is proved end to end (convolve_modn_ntt_spec) and K/O-compared up to "
+    "size 1024 (beyond: the driver answers with the specification model); NOT done: the arith_poly models (Ymq/Model/PolySeries.lean) "
+    "still take the NTT path of _longmul/_middlemul as the exact convolution over abstract coefficient operations, the refinement of "
+    "that step by convolve_modn_ntt_spec (Montgomery MInt operations vs natOps) is not stated; the debug_assert sanity check of the "
+    "roots at the end of MultiZmodP::new is not modelled; Poly::mul_fft has no mechanism model",
     "bnum U1024/U2048 operators are modelled as Nat arithmetic; memory safety of get_unchecked is not modelled",
 ]
 
@@ -1191,7 +1192,11 @@ CLAIM = ("Lean theorems, for all inputs, about executable models of arith_fft.rs
          "constant p-2 and generators of order exactly 2^32 (ntt_table_ok); the root tables of new are principal roots in Montgomery form "
          "(ntt_roots_spec), the word-level ntt_inplace is the DFT recursion of dft_conv per prime on the bit-reversed input, both directions "
          "(ntt_inplace_spec), the transform pipeline of convolve_modn_ntt (2 forward transforms, mul, swap loop, inverse) is the cyclic "
-         "convolution per prime (ntt_pipeline_spec), and V < P/2 holds at its _crt call sites (crt_call_bound). (4) arith_poly over any commutative-ring image of the coefficient operations, no panic site reached: _basic_mul and "
+         "convolution per prime (ntt_pipeline_spec), V < P/2 holds at its _crt call sites (crt_call_bound), from_mint gives the Montgomery "
+         "forms of v mod p_j (from_mint_spec, with the rpowers table), pprods_modn[q] = -qP mod n (pprods_modn_spec), and COMPOSED: "
+         "convolve_modn_ntt_spec: for n > 0 of at most 512 bits, logsize <= 31, size = 2^K, 1 <= K <= logsize, operands of residues < n, "
+         "the word-level model of convolve_modn_ntt (from_mint + bit-reversed scatter, transforms, mul, swap loop, inverse, _crt, zn.redc) "
+         "reaches no panic site and returns the Montgomery form of the cyclic convolution modulo n. (4) arith_poly over any commutative-ring image of the coefficient operations, no panic site reached: _basic_mul and "
          "karatsuba (all operand lengths after the fix, buffer reuse, stale buffers) = product; _middlemul (HQZ) = middle slice; "
          "_inv_mod_xn / div_mod_xn (Newton, after the fix) = series inverse / quotient; _product_tree / from_roots = product of (x - r_i); "
          "_multi_eval / multi_eval = values at all points; roots_eval = prod_i (b_j - a_i) in both branches for |b| >= 2 (Barrett reduction "
@@ -1201,9 +1206,10 @@ CLAIM = ("Lean theorems, for all inputs, about executable models of arith_fft.rs
          "models (K) and judged by an independent Python schoolbook/big-integer oracle (O).")
 LEVEL_NOTE = ("Trusted: Lean kernel (+propext, Classical.choice, Quot.sound); the hand-written models' correspondence to the Rust code (sampled by "
               "the harness in both profiles, not proved); the translator for the dispatch table and the prime table; Python integers in the oracle. "
-              "NOT COMPOSED: convolve_modn_ntt is proved in pieces (roots, ntt_inplace, pipeline per prime, _crt, V < P/2) but from_mint, "
-              "pprods_modn[q] = -qP mod n and the final zn.redc have no theorem, so there is no end-to-end statement modulo n and the arith_poly "
-              "models still take the NTT path as the exact convolution; K/O compare the whole word-level model up to size 1024. "
+              "convolve_modn_ntt is proved end to end at word level (convolve_modn_ntt_spec) but the arith_poly models still take their NTT "
+              "path as the exact convolution over abstract coefficient operations: that refinement step (Montgomery MInt arithmetic of the "
+              "code vs the plain residues natOps of the driver) is not stated, so the production path of arith_poly is covered by the two "
+              "theorems side by side, not by one statement; K/O compare the whole word-level model up to size 1024. "
               "NO THEOREM: Poly::mul_fft, roots_eval with |b| = 1. "
               "crt_spec covers _crt (mg_mul64, quotient estimate, column loop, carry assert) on the tables of the model of MultiZmodP::new; "
               "from_mint, redc, pprods_modn[q] = -qP mod n, and that V < P/2 for the values _crt is called on, are checked by K/O (mzp_new, "
